@@ -2,7 +2,7 @@
    Expression::rename_literals (src/expressions/structs/expression.rs) and the public
    boolean_point_to_valuation methods of Expression and TruthTable (src/{expressions,table}/iterators/mod.rs).
    Definitions only; proofs in Proofs/ExtraProofs.v. *)
-From BBF Require Import Base.Prelude Base.Names Base.Bits Spec.Sem Model.Expr Model.Table Model.LibBdd Model.Bdd Model.Prog Model.Iter.
+From BBF Require Import Base.Prelude Base.Names Base.Bits Spec.Sem Model.Expr Model.Table Model.LibBdd Model.Bdd Model.Prog Model.Iter Model.Render Model.Csv.
 
 (* mapping.get(name).unwrap_or(name) *)
 Definition rn (m : list (name * name)) (x : name) : name :=
@@ -25,3 +25,13 @@ Definition obj_point_valuation (o : obj) (p : list bool) : Res (option valuation
   | OT t => Ok (t_point_valuation t p)
   | OB _ => na
   end.
+
+(* the payload of TruthTableFromCsvError::DuplicateVariableName: the first header cell (output column excluded)
+   that repeats an earlier one (inputs_from_header: BTreeSet::insert returning false) *)
+Definition dup_of_records (rs : list (list text)) : option name :=
+  match header_and_data rs with
+  | Ok (true, first, _) => first_dup [] (removelast first)
+  | _ => None
+  end.
+Definition csv_duplicate_name (s : text) : option name :=
+  match s with [] => None | _ => dup_of_records (split_records s) end.
